@@ -6,6 +6,7 @@
 // held by SvgElement are unescaped and must be escaped when serialised, and no `expect("utf8")` may
 // be reachable with a payload the reader did not validate.
 //@assume the quick-xml interface model in vx/prelude/qxml.rs (escape/unescape round trip, raw vs escaping constructors, reader does not validate UTF-8)
+//@assume write_to: R-writer (the quick_xml::Writer wrapper is dropped, the sink records what it is given), R-maperr (`.map_err(SvgdxError::from_err)?` is `?`), R-continue (`{ ..; continue; } else if c { A } B` is `{ .. } else { if c { A } B }`), R-string (String::new/push_str/clear/is_empty by their obvious specs); blank_line_remover is an uninterpreted function of its argument
 //@assume R-iter-vec: `for (k, v) in &self.attrs` iterates the map's vector of pairs; R-abstract: joining the class list
 use vstd::prelude::*;
 //@prelude fmt_macro
@@ -115,8 +116,68 @@ impl Event {
 //@end
 }
 
-// (OutputList::write_to is not under contract: Verus rejects `continue` inside a `for` loop;
-//  the text-escaping step of the writer is named as unverified in DESIGN.md)
+// ------------------------------------------------------------------------------ the writer loop
+impl Clone for OutputEvent { #[verifier::external_body] fn clone(&self) -> (r: Self) ensures r == *self { unimplemented!() } }
+//@item src/events.rs :: struct OutputList
+//@end
+/// what reaches the XML writer, in order: a text event is observed by its RAW payload (the bytes
+/// that will be written), any other output event as itself (its conversion is From<OutputEvent> for Event)
+pub enum Written { Text(Bytes), Out(OutputEvent), Other(Event) }
+pub trait IntoWritten: Sized { spec fn written(self) -> Written; }
+impl IntoWritten for Event {
+    open spec fn written(self) -> Written { match self { Event::Text(t) => Written::Text(t.raw()), e => Written::Other(e) } }
+}
+impl IntoWritten for OutputEvent { open spec fn written(self) -> Written { Written::Out(self) } }
+/// R-writer: stands for `quick_xml::Writer<&mut dyn Write>`
+#[verifier::external_body] pub struct Sink { _p: u8 }
+impl Sink {
+    pub uninterp spec fn log(&self) -> Seq<Written>;
+    #[verifier::external_body]
+    pub fn write_event<E: IntoWritten>(&mut self, e: E) -> (r: Result<()>) ensures final(self).log() == old(self).log().push(e.written()) { unimplemented!() }
+}
+pub uninterp spec fn blr(s: Seq<char>) -> Seq<char>;      // OutputList::blank_line_remover (string code, not under contract)
+#[verifier::external_body] pub fn string_new() -> (r: String) ensures r@.len() == 0 { unimplemented!() }
+#[verifier::external_body] pub fn string_push_str(s: &mut String, t: &String) ensures final(s)@ == old(s)@ + t@ { unimplemented!() }
+#[verifier::external_body] pub fn string_clear(s: &mut String) ensures final(s)@.len() == 0 { unimplemented!() }
+#[verifier::external_body] pub fn string_is_empty(s: &String) -> (r: bool) ensures r == (s@.len() == 0) { unimplemented!() }
+
+/// the text buffered after the first n events: consecutive Text payloads are coalesced
+pub open spec fn buf_after(evs: Seq<OutputEvent>, n: int) -> Seq<char> decreases n {
+    if n <= 0 { Seq::<char>::empty() } else { match evs[n - 1] { OutputEvent::Text(c) => buf_after(evs, n - 1) + c@, _ => Seq::<char>::empty() } }
+}
+/// a pending text run is written ESCAPED, once, after trailing blanks of its lines are removed
+pub open spec fn flush(buf: Seq<char>) -> Seq<Written> {
+    if buf.len() == 0 { Seq::<Written>::empty() } else { seq![Written::Text(xml_escape(blr(buf)))] }
+}
+pub open spec fn log_after(evs: Seq<OutputEvent>, n: int) -> Seq<Written> decreases n {
+    if n <= 0 { Seq::<Written>::empty() } else { match evs[n - 1] {
+        OutputEvent::Text(_) => log_after(evs, n - 1),
+        e => log_after(evs, n - 1) + flush(buf_after(evs, n - 1)) + seq![Written::Out(e)] } }
+}
+impl OutputList {
+    #[verifier::external_body]
+    pub fn blank_line_remover(s: &str) -> (r: String) ensures r@ == blr(s@) { unimplemented!() }
+//@item src/events.rs :: impl OutputList :: fn write_to
+//@ replace[R-writer] <<<writer: &mut dyn Write>>> => <<<writer: &mut Sink>>>
+//@ replace[R-writer] <<<        let mut writer = Writer::new(writer);\n>>> => <<<>>>
+//@ replace-all[R-maperr] <<<.map_err(SvgdxError::from_err)?>>> => <<<?>>>
+//@ replace[R-continue] <<<                continue;\n            } else if !text_buf.is_empty() {>>> => <<<            } else { if !text_buf.is_empty() {>>>
+//@ replace[R-continue] <<<            writer.write_event(event)?;\n        }>>> => <<<            writer.write_event(event)?;\n            }\n        }>>>
+//@ replace[R-string] <<<let mut text_buf = String::new();>>> => <<<let mut text_buf = string_new();>>>
+//@ replace[R-string] <<<text_buf.push_str(content);>>> => <<<string_push_str(&mut text_buf, content);>>>
+//@ replace[R-string] <<<text_buf.clear();>>> => <<<string_clear(&mut text_buf);>>>
+//@ replace-all[R-string] <<<!text_buf.is_empty()>>> => <<<!string_is_empty(&text_buf)>>>
+//@ ensures
+//@ - r is Ok ==> final(writer).log() == old(writer).log() + log_after(self.events@, self.events@.len() as int) + flush(buf_after(self.events@, self.events@.len() as int))     @@C02.text.escaped_once @@C03.write.in_order @@C05.write.in_order
+//@ loop 1
+//@ iter it
+//@ invariant
+//@ - self.events@ == (it.history@ + vstd::std_specs::iter::IteratorSpec::remaining(&it.iter)).map(|i: int, e: &OutputEvent| *e)
+//@ - it.index@ == it.history@.len()
+//@ - text_buf@ == buf_after(self.events@, it.index@)
+//@ - writer.log() == old(writer).log() + log_after(self.events@, it.index@)     @@C02.text.escaped_once.loop
+//@end
+}
 
 } // verus!
 fn main() {}
